@@ -129,6 +129,11 @@ func (d *DefaultClientDispatcher) Start() {
 	d.requestChannel = make(chan bool, 1)
 	d.paused = false
 	d.stopped = false
+	// A ready token that the previous Stop overtook would release a second transmission of the first request
+	select {
+	case <-d.readyForDispatch:
+	default:
+	}
 	d.timer = time.NewTimer(defaultTimeoutTick) // Default to 24 hours tick
 	go d.messagePump()
 }
